@@ -253,6 +253,9 @@ def run(ctx):
     # induction needs it
     from . import c01
     c01.rule_start_value(ctx, facts, prefix="C02-R1/start")
+    # ... and that the counter only moves forward: a wrapping / unchecked step lets the value that is written to
+    # the lock fall below IDs already handed out (C01-R6 re-checked here as a premise of the invariant)
+    c01.rule_checked_arithmetic(ctx, facts, prefix="C02-R1/arith")
     ctx.assume("the induction over histories (DESIGN §4 C02) connecting these premises to the statement is prose, not machine-checked")
     ctx.assume("developers do not edit Breadlog.lock by hand and keep it under version control (statement: 'in use and kept')")
     return {
